@@ -18,6 +18,19 @@ var externPure = map[string]bool{
 	"strings.HasPrefix": true, "strings.HasSuffix": true, "strings.Contains": true, "strings.Index": true,
 	"unicode/utf8.Valid": true, "unicode/utf8.ValidString": true, "errors.Is": true, "errors.As": false,
 	"sort.Strings": false,
+	// pure, deterministic, never panicking, work linear in the arguments, result a scalar or a fresh/immutable value
+	"bytes.HasPrefix": true, "bytes.HasSuffix": true, "bytes.IndexByte": true, "bytes.Index": true, "bytes.LastIndex": true,
+	"bytes.Contains": true, "bytes.ContainsAny": true, "bytes.ContainsRune": true, "bytes.Count": true, "bytes.EqualFold": true,
+	"strings.IndexByte": true, "strings.LastIndex": true, "strings.ContainsAny": true, "strings.ContainsRune": true, "strings.Count": true,
+	"strings.EqualFold": true, "strings.Compare": true, "strings.TrimPrefix": true, "strings.TrimSuffix": true, "strings.Trim": true,
+	"strings.TrimLeft": true, "strings.TrimRight": true, "strings.ReplaceAll": true, "strings.Replace": true, "strings.Fields": true,
+	"strings.Split": true, "strings.SplitN": true,
+	"strconv.FormatBool": true, "strconv.QuoteToASCII": true,
+	"unicode/utf8.RuneCount": true, "unicode/utf8.RuneCountInString": true, "unicode/utf8.RuneLen": true, "unicode/utf8.ValidRune": true,
+	"math/bits.Len": true, "math/bits.Len8": true, "math/bits.Len16": true, "math/bits.Len32": true, "math/bits.Len64": true,
+	"math/bits.OnesCount8": true, "math/bits.OnesCount": true, "math/bits.TrailingZeros8": true, "math/bits.TrailingZeros": true,
+	"math/bits.LeadingZeros8": true, "math/bits.LeadingZeros": true,
+	"errors.Unwrap": true,
 }
 
 // external callees that write through one argument only (index into the
